@@ -163,6 +163,7 @@ def extra(defs, lab, ab, src, label_max, name_max, lim, LIM):
     message_zonefile_items(defs, ab, lim, LIM)
     slicing_items(defs, ab)
     uncertain_items(defs, lim, LIM)
+    serde_const_items(defs, ab)
 
 
 def message_zonefile_items(defs, ab, lim, LIM):
@@ -267,6 +268,62 @@ def uncertain_items(defs, lim, LIM):
     b = fn_body(ch, "new_uncertain")
     m = one(r"^\s*if let UncertainName::Relative\(ref name\) = left \{\s*if usize::from\(name\.compose_len\(\) \+ right\.compose_len\(\)\)\s*(>=|>) " + LIM + r"\s*\{\s*return Err\(LongChainError\(\(\)\)\);\s*\}\s*\}\s*Ok\(Chain \{ left, right \}\)\s*$", b, "Chain::new_uncertain")
     boo("chain_unc_ge", ge(m.group(1))); nat("chain_unc_lim", lim(m.group(2)))
+
+
+def rust_bytes(lit):
+    """b"..." literal with \\0 and \\xHH escapes -> list of ints"""
+    out = []
+    i = 0
+    while i < len(lit):
+        if lit[i] == "\\":
+            if lit[i + 1] == "x":
+                out.append(int(lit[i + 2:i + 4], 16)); i += 4
+            elif lit[i + 1] == "0":
+                out.append(0); i += 2
+            else:
+                raise GenError("unsupported escape in byte literal %r" % lit)
+        else:
+            out.append(ord(lit[i])); i += 1
+    return out
+
+
+def serde_const_items(defs, ab):
+    """human-readable serde of the three name kinds, Display for UncertainName,
+    and the constant names (root, empty, wildcard)"""
+    def boo(name, v): defs.append((name, "bool", "true" if v else "false"))
+    def lst(name, v): defs.append((name, "list N", "[" + "; ".join("%d%%N" % x for x in v) + "]"))
+    rel = strip_comments(read("src/base/name/relative.rs"))
+    un = strip_comments(read("src/base/name/uncertain.rs"))
+    # serialize: the Display text
+    for src_, nm in ((ab, "Name"), (rel, "RelativeName"), (un, "UncertainName")):
+        one(r"if serializer\.is_human_readable\(\) \{\s*serializer\s*\.serialize_newtype_struct\(\s*\"" + nm + r"\",\s*&format_args!\(\"\{\}\", self\),?\s*\)", src_, nm + " human-readable Serialize")
+    # deserialize from a string
+    one(r"fn visit_str<E: serde::de::Error>\(\s*self,\s*v: &str,\s*\) -> Result<Self::Value, E> \{\s*Name::from_str\(v\)\.map_err\(E::custom\)\s*\}", ab, "Name visit_str")
+    one(r"fn visit_str<E: serde::de::Error>\(\s*self,\s*v: &str,\s*\) -> Result<Self::Value, E> \{\s*use core::str::FromStr;\s*UncertainName::from_str\(v\)\.map_err\(E::custom\)\s*\}", un, "UncertainName visit_str")
+    m = one(r"fn visit_str<E: serde::de::Error>\(\s*self,\s*v: &str,\s*\) -> Result<Self::Value, E> \{\s*(?:(let mut builder = NameBuilder::<Octs::Builder>::new\(\);\s*builder\.append_chars\(v\.chars\(\)\)\.map_err\(E::custom\)\?;\s*Ok\(builder\.finish\(\)\))|(RelativeName::from_chars\(v\.chars\(\)\)\.map_err\(E::custom\)))\s*\}", rel, "RelativeName visit_str")
+    boo("serde_rel_checks_absolute", m.group(2) is not None)
+    # Display for UncertainName
+    b = fn_body(un, "fmt", after="fmt::Display for UncertainName")
+    m = one(r"^\s*match \*self \{\s*UncertainName::Absolute\(ref name\) => \{\s*(?:(write!\(f, \"\{\}\.\", name\))|(if name\.is_root\(\) \{\s*name\.fmt\(f\)\s*\} else \{\s*write!\(f, \"\{\}\.\", name\)\s*\}))\s*\}\s*UncertainName::Relative\(ref name\) => name\.fmt\(f\),\s*\}\s*$", b, "Display for UncertainName")
+    boo("uncertain_display_root_special", m.group(2) is not None)
+    # Display for RelativeName: labels joined by dots
+    b = fn_body(rel, "fmt", after="fmt::Display for RelativeName")
+    one(r"^\s*let mut iter = self\.iter\(\);\s*match iter\.next\(\) \{\s*Some\(label\) => label\.fmt\(f\)\?,\s*None => return Ok\(\(\)\),\s*\}\s*for label in iter \{\s*f\.write_str\(\"\.\"\)\?;\s*label\.fmt\(f\)\?;\s*\}\s*Ok\(\(\)\)\s*$", b, "Display for RelativeName")
+    # constants
+    m = one(r"pub fn root\(\) -> Self\s*where\s*Octs: From<&'static \[u8\]>,\s*\{\s*unsafe \{ Self::from_octets_unchecked\(b\"([^\"]*)\"\.as_ref\(\)\.into\(\)\) \}", ab, "Name::root")
+    lst("const_root", rust_bytes(m.group(1)))
+    m = one(r"pub fn root_slice\(\) -> &'static Self \{\s*unsafe \{ Self::from_slice_unchecked\(\"([^\"]*)\"\.as_ref\(\)\) \}", ab, "Name::root_slice")
+    lst("const_root_slice", rust_bytes(m.group(1)))
+    m = one(r"pub fn empty\(\) -> Self\s*where\s*Octs: From<&'static \[u8\]>,\s*\{\s*unsafe \{ RelativeName::from_octets_unchecked\(b\"([^\"]*)\"\.as_ref\(\)\.into\(\)\) \}", rel, "RelativeName::empty")
+    lst("const_empty", rust_bytes(m.group(1)))
+    m = one(r"pub fn wildcard\(\) -> Self\s*where\s*Octs: From<&'static \[u8\]>,\s*\{\s*unsafe \{\s*RelativeName::from_octets_unchecked\(b\"([^\"]*)\"\.as_ref\(\)\.into\(\)\)\s*\}", rel, "RelativeName::wildcard")
+    lst("const_wildcard", rust_bytes(m.group(1)))
+    m = one(r"pub fn empty_slice\(\) -> &'static Self \{\s*unsafe \{ Self::from_slice_unchecked\(b\"([^\"]*)\"\) \}", rel, "RelativeName::empty_slice")
+    lst("const_empty_slice", rust_bytes(m.group(1)))
+    m = one(r"pub fn wildcard_slice\(\) -> &'static Self \{\s*unsafe \{ Self::from_slice_unchecked\(b\"([^\"]*)\"\) \}", rel, "RelativeName::wildcard_slice")
+    lst("const_wildcard_slice", rust_bytes(m.group(1)))
+    m = one(r"builder\s*\.append_slice\(b\"([^\"]*)\"\)\s*\.map_err\(\|_\| FromStrError::ShortBuf\)\?;", ab, "from_symbols root octets")
+    lst("const_from_symbols_root", rust_bytes(m.group(1)))
 
 
 def byte_lit(t):
